@@ -730,7 +730,7 @@ func (s *State) applyFunction(name string, fn object.Object, args []object.Objec
 	if !ok {
 		return s.NewError("not a function: " + fn.Type().String() + ":" + fn.Inspect())
 	}
-	if ep := s.env.Epoch(); ep != s.cacheEpoch {
+	if ep := s.rootEnv.Epoch(); ep != s.cacheEpoch { // (from the root: walking up from a deep call frame each time is quadratic.)
 		// A top level function or constant was redefined or deleted since the cache was filled.
 		s.ResetCache()
 		s.cacheEpoch = ep
